@@ -146,6 +146,7 @@ type Shim struct {
 	Tainted     map[string]string // application -> known in-flight swap trigger it went through
 	start       time.Time
 	badIDs      map[string]string // ids used by malformed requests: answers about them are expected
+	onCallback  func()            // called at the entry of every core->shim callback, before the message is taken in (crash point)
 }
 
 func (s *Shim) taint(app, kind string) {
@@ -205,6 +206,9 @@ func (cb *shimCB) UpdateAllocation(r *si.AllocationResponse) error {
 	if cb.epoch != s.epoch {
 		s.dropped++
 		return nil
+	}
+	if s.onCallback != nil {
+		s.onCallback()
 	}
 	for _, a := range r.New {
 		s.onNew(a)
